@@ -95,6 +95,62 @@ Theorem C16_unregister_object_forgets : forall s o,
 Proof. exact unregister_object_forgets. Qed.
 Print Assumptions C16_unregister_object_forgets.
 
+(* (1) the weak-finalizer repair as a positive theorem, all histories: when pool object o is collected
+   (its last reference is dropped and nothing holds it strongly), no id (other than the daemon's reserved
+   name, which the daemon never forgets) reaches o any more, every registration of anything else is exactly
+   as before, nothing new appears, and the slot travels by value.  With C16_registered_lists_exactly:
+   registered() no longer lists those ids.  A strongly registered object is not collected at all. *)
+Theorem C16_gc_forgets_collected_object : forall h o,
+  let s := final quirks_none h in
+  snd (step quirks_none s (Gc o)) = RGc true ->
+  let s' := fst (step quirks_none s (Gc o)) in
+  (forall i, i <> IdDaemon -> snd (step quirks_none s' (Call i)) <> RReached (Some (PObj o))) /\
+  (forall i e, lookup i (reg s) = Some e -> holds e (PObj o) = false -> lookup i (reg s') = Some e) /\
+  (forall i e, lookup i (reg s') = Some e -> lookup i (reg s) = Some e) /\
+  snd (step quirks_none s' (Return o)) = RValue.
+Proof. exact gc_forgets_collected_object. Qed.
+Print Assumptions C16_gc_forgets_collected_object.
+
+Theorem C16_gc_keeps_strongly_registered : forall s o,
+  strongly_held s o = true -> step quirks_none s (Gc o) = (s, RGc false).
+Proof. exact gc_keeps_strongly_registered. Qed.
+Print Assumptions C16_gc_keeps_strongly_registered.
+
+(* (3) proxy_iff_registered, full equivalence, for every history in which the object is never aliased
+   ([unaliased]: no forced registration of it while it is registered under a different id): it is registered
+   under i exactly when, returned from a remote method, it arrives as a proxy for i that reaches itself;
+   and it has at most one id. *)
+Theorem C16_proxy_iff_registered : forall h o i, unaliased (PObj o) h = true ->
+  (registered_at (final quirks_none h) i (PObj o) <->
+   snd (step quirks_none (final quirks_none h) (Return o)) = RProxy i (Some (PObj o))).
+Proof. exact proxy_iff_registered. Qed.
+Print Assumptions C16_proxy_iff_registered.
+
+Theorem C16_unaliased_one_id : forall h t i j, unaliased t h = true ->
+  registered_at (final quirks_none h) i t -> registered_at (final quirks_none h) j t -> i = j.
+Proof. exact unaliased_one_id. Qed.
+Print Assumptions C16_unaliased_one_id.
+
+(* (2) a second registration of the same object or class (registered strongly or weakly, under whatever id)
+   without force is refused: DaemonError (TypeError for a malformed request), state unchanged. *)
+Theorem C16_second_registration_of_object_refused : forall h t r w,
+  unaliased t h = true -> is_registered (final quirks_none h) t ->
+  exists e, step quirks_none (final quirks_none h) (Register t r false w) = (final quirks_none h, RErr e) /\
+            (r <> RBad -> is_class t && w = false -> e = EDaemonError).
+Proof. exact second_registration_refused. Qed.
+Print Assumptions C16_second_registration_of_object_refused.
+
+(* (4) register(o) without an id: the generated id was not in use, reaches o afterwards, and no other id
+   is affected (even with force); all theorems above then apply to it like to any other id. *)
+Theorem C16_generated_id_fresh : forall h t f w i,
+  let s := final quirks_none h in
+  snd (step quirks_none s (Register t RGen f w)) = RUri i ->
+  lookup i (reg s) = None /\
+  registered_at (fst (step quirks_none s (Register t RGen f w))) i t /\
+  (forall j, j <> i -> lookup j (reg (fst (step quirks_none s (Register t RGen f w)))) = lookup j (reg s)).
+Proof. exact generated_id_fresh. Qed.
+Print Assumptions C16_generated_id_fresh.
+
 (* ---- the defects: each quirk alone breaks the statement it names (witnesses replayed on the code) ---- *)
 Definition only_unreg_id := mk_quirks true false false false false.
 Definition only_unreg_obj := mk_quirks false true false false false.
@@ -172,3 +228,12 @@ Example C16_nonvacuous_until_disturbed :
   snd (step quirks_none (final quirks_none [Register (PObj 1) (RNamed 0) false false]) (Register (PObj 0) (RNamed 1) true true)) = RUri (IdName 1) /\
   forallb (fun e => negb (disturbs (IdName 1) (PObj 0) e)) [Register (PObj 1) (RNamed 2) true false; UnregId (IdName 0); Gc 1; UnregObj (PObj 1)] = true.
 Proof. vm_compute. auto. Qed.
+(* an un-aliased history with force, weak registration, displacement and collection; the open finding's witness is aliased *)
+Example C16_nonvacuous_unaliased :
+  let h := [Register (PObj 0) RGen false true; Register (PObj 1) (RNamed 0) false false; UnregId (IdGen 0);
+            Register (PObj 0) (RNamed 0) true false; Gc 1; Register (PObj 1) RGen true true] in
+  unaliased (PObj 0) h = true /\ unaliased (PObj 1) h = true /\
+  registered_at (final quirks_none h) (IdName 0) (PObj 0) /\ registered_at (final quirks_none h) (IdGen 1) (PObj 1) /\
+  snd (step quirks_none (final quirks_none h) (Gc 1)) = RGc true /\
+  unaliased (PObj 0) [Register (PObj 0) (RNamed 0) false false; Register (PObj 0) (RNamed 1) true false; UnregObj (PObj 0)] = false.
+Proof. vm_compute. repeat split; try reflexivity; eexists; reflexivity. Qed.
